@@ -5,7 +5,8 @@
    "!" stands for "not one valid JSON text" (Go's parser refused the bytes).
 
    case lines
-     <dop> x<bytes> <jv>                 dop in dppr dppr0 dpr dpr0 dar dars dcps
+     <dop> x<bytes> <jv>                 dop in dppr dppr0 dpr dpr0 dar dars dcps dprr (dprr/rprr: the poll response with
+                                         the failure reason visible: ok ... | reason x<status> x<nat> x<relay> | err)
      dcpr x<bytes> <x<body>|-> <jv>      body = bytes after the first newline ("-": none)
      eppr|rppr   x<sid> x<type> x<nat> <clients> x<pattern>
      eppr0|rppr0 x<sid> x<type> x<nat> <clients>
@@ -152,6 +153,13 @@ Definition p3 (r : bytes * bytes * bytes) : bytes :=
   let '(a, b, c) := r in X a ++ [SP] ++ X b ++ [SP] ++ X c.
 Definition p2 (r : bytes * bytes) : bytes := let '(a, b) := r in X a ++ [SP] ++ X b.
 
+Definition out_r (r : presult) : bytes :=
+  match r with
+  | PROk x => bs "ok " ++ p3 x
+  | PRReason st n u => bs "reason " ++ X st ++ [SP] ++ X n ++ [SP] ++ X u
+  | PRErr => bs "err"
+  end.
+
 Definition opt2 {A B} (a : option A) (b : option B) : option (A * B) :=
   match a, b with Some x, Some y => Some (x, y) | _, _ => None end.
 
@@ -163,6 +171,7 @@ Definition run (args : list bytes) : bytes :=
           if beq op (bs "dppr") then out_g p_poll_req (opt_decode_g decode_proxy_poll_code o)
           else if beq op (bs "dppr0") then out_g p_poll_req0 (opt_decode_g decode_proxy_poll_legacy_code o)
           else if beq op (bs "dpr") then out_g p3 (opt_decode_g decode_poll_response_g o)
+          else if beq op (bs "dprr") then out_r (match o with Some v => decode_poll_response_reason v | None => PRErr end)
           else if beq op (bs "dpr0") then out_g p2 (opt_decode_g decode_poll_response_legacy_g o)
           else if beq op (bs "dar") then out_g p2 (opt_decode_g decode_answer_request_code o)
           else if beq op (bs "dars") then out_g bool_print (opt_decode_g decode_answer_response_g o)
@@ -244,6 +253,8 @@ Definition run (args : list bytes) : bytes :=
         | Some offer, Some ok, Some (nat, relay), Some reason =>
             if beq op (bs "epr") then jprint_sorted (encode_poll_response offer ok nat relay reason)
             else if beq op (bs "rpr") then out p3 (decode_poll_response (encode_poll_response offer ok nat relay reason))
+            else if beq op (bs "eprr") then jprint_sorted (encode_poll_response offer ok nat relay reason)
+            else if beq op (bs "rprr") then out_r (decode_poll_response_reason (encode_poll_response offer ok nat relay reason))
             else ERR_BADCASE
         | _, _, _, _ => ERR_BADCASE
         end
